@@ -137,6 +137,212 @@ Theorem legacy_stale_state_refuted :
                lookup (st_bk (o_set o')) "min_n_cycles" = None.
 Proof. eexists. eexists. repeat split; vm_compute; reflexivity. Qed.
 
+(* ---------------------------------------------------------------- constructor defaults *)
+Theorem default_thr_values :
+  lookup (default_thr false) "amp_fraction_threshold" = Some 0%Z /\
+  lookup (default_thr false) "amp_consistency_threshold" = Some 500%Z /\
+  lookup (default_thr false) "period_consistency_threshold" = Some 500%Z /\
+  lookup (default_thr false) "monotonicity_threshold" = Some 800%Z /\
+  lookup (default_thr false) "min_n_cycles" = Some 3%Z /\
+  lookup (default_thr true) "burst_fraction_threshold" = Some 1000%Z /\
+  lookup (default_thr true) "min_n_cycles" = Some 3%Z.
+Proof. repeat split; reflexivity. Qed.
+
+Lemma expand_default_thr amp : expand_thresholds (default_thr amp) = default_thr amp.
+Proof. destruct amp; vm_compute; reflexivity. Qed.
+
+(* thresholds=None: the stored thresholds are the documented defaults of the method *)
+Theorem construct_default_thresholds a : ca_thr a = None ->
+  st_thr (o_set (construct_args a)) = default_thr (match ca_amp a with Some b => b | None => false end).
+Proof.
+  intros Hnone. unfold construct_args, construct, settings_of_args. cbn [o_set st_thr].
+  rewrite Hnone. apply expand_default_thr.
+Qed.
+
+(* thresholds given: exactly the caller's dictionary with shorthand names expanded; nothing is filled in *)
+Theorem construct_given_thresholds a d : ca_thr a = Some d ->
+  st_thr (o_set (construct_args a)) = expand_thresholds d.
+Proof.
+  intros Hd. unfold construct_args, construct, settings_of_args. cbn [o_set st_thr]. now rewrite Hd.
+Qed.
+
+(* Bycycle() with no argument at all *)
+Theorem construct_no_args :
+  construct_args no_args =
+  {| o_set := {| st_center := true; st_amp := false; st_bk := []; st_thr := default_thr false; st_fek := 0%Z; st_rs := true |};
+     o_sig := None; o_df := None |}.
+Proof. vm_compute. reflexivity. Qed.
+
+(* every other argument: the given value, else the documented default *)
+Theorem construct_other_settings a :
+  let s := o_set (construct_args a) in
+  st_center s = match ca_center a with Some c => c | None => true end /\
+  st_amp s = match ca_amp a with Some b => b | None => false end /\
+  st_bk s = match ca_bk a with Some d => d | None => [] end /\
+  st_fek s = match ca_fek a with Some f => f | None => 0%Z end /\
+  st_rs s = match ca_rs a with Some r => r | None => true end.
+Proof. repeat split; reflexivity. Qed.
+
+(* ---------------------------------------------------------------- groups *)
+Lemma mapM_recompute r : forall ms ms',
+  mapM (fun m => step m (ORecompute r)) ms = Ok ms' ->
+  map o_sig ms' = map o_sig ms /\ map o_set ms' = map o_set ms /\
+  map o_df ms' = map Some (some_tables ms') /\
+  forall ts, map o_df ms = map Some ts ->
+    some_tables ms' = map (fun mt => TEdges (snd mt) (reduce_thresholds (st_thr (o_set (fst mt))) r)) (combine ms ts).
+Proof.
+  induction ms as [|m t IH]; intros ms' Hm; cbn [mapM] in Hm.
+  - injection Hm as <-. split; [reflexivity|]. split; [reflexivity|]. split; [reflexivity|].
+    intros [|x ts] Hts; [reflexivity|discriminate Hts].
+  - destruct (step m (ORecompute r)) as [m1|e] eqn:E1; cbn [bind] in Hm; [|discriminate Hm].
+    destruct (mapM (fun m0 => step m0 (ORecompute r)) t) as [t1|e] eqn:E2; cbn [bind] in Hm; [|discriminate Hm].
+    injection Hm as <-. destruct (IH t1 eq_refl) as (Hs & Hset & Hdf & Hts).
+    cbn [step step_gen] in E1. destruct (o_df m) as [tb|] eqn:Edf; [|discriminate E1]. injection E1 as <-.
+    cbn [map o_sig o_set o_df some_tables flat_map app]. fold (some_tables t1).
+    rewrite Hs, Hset, Hdf. repeat split.
+    intros [|x ts] Hx; [discriminate Hx|]. cbn [map] in Hx. injection Hx as Hx1 Hx2.
+    rewrite Edf in Hx1. injection Hx1 as <-. cbn [combine map fst snd]. now rewrite (Hts ts Hx2).
+Qed.
+
+(* one group operation preserves the mirror property *)
+Theorem group_mirror_step g p g' : mirror g -> gstep g p = Ok g' -> mirror g'.
+Proof.
+  intros (Hdf & Hsig) Hp. destruct p as [arr sh|k v|k v|r]; cbn [gstep gstep_gen] in Hp.
+  - injection Hp as <-. unfold mirror. cbn [g_models g_dfs g_sigs]. rewrite !map_map. split; reflexivity.
+  - injection Hp as <-. unfold mirror. cbn [g_models g_dfs g_sigs]. rewrite !map_map.
+    split; [rewrite <- Hdf|rewrite <- Hsig]; apply map_ext; intros m; reflexivity.
+  - injection Hp as <-. unfold mirror. cbn [g_models g_dfs g_sigs]. rewrite !map_map.
+    split; [rewrite <- Hdf|rewrite <- Hsig]; apply map_ext; intros m; reflexivity.
+  - destruct (g_models g) as [|m0 ms0] eqn:Em; [discriminate Hp|]. rewrite <- Em in Hp.
+    destruct (mapM (fun m => step m (ORecompute r)) (g_models g)) as [ms|e] eqn:E; cbn [bind] in Hp; [|discriminate Hp].
+    injection Hp as <-. destruct (mapM_recompute r _ _ E) as (Hs & _ & Hd & _).
+    unfold mirror. cbn [g_models g_dfs g_sigs]. split; [exact Hd|]. rewrite Hs, Em. exact Hsig.
+Qed.
+
+Lemma grun_app st g l1 l2 : grun_gen st g (l1 ++ l2)%list = (do g1 <- grun_gen st g l1; grun_gen st g1 l2).
+Proof.
+  revert g; induction l1 as [|p t IH]; intros g; [reflexivity|].
+  cbn [app grun_gen]. destruct (st g p) as [g1|e]; cbn [bind]; [apply IH|reflexivity].
+Qed.
+
+Theorem group_mirror_run g ops g' : mirror g -> grun g ops = Ok g' -> mirror g'.
+Proof.
+  revert g; induction ops as [|p t IH]; intros g Hm Hr; cbn [grun grun_gen] in Hr.
+  - injection Hr as <-. exact Hm.
+  - destruct (gstep g p) as [g1|e] eqn:E; cbn [bind] in Hr; [|discriminate Hr].
+    exact (IH g1 (group_mirror_step _ _ _ Hm E) Hr).
+Qed.
+
+(* after ANY history of group operations the models mirror df_features and sigs *)
+Theorem group_mirror a ops g : grun (construct_group a) ops = Ok g -> mirror g.
+Proof. apply group_mirror_run. split; reflexivity. Qed.
+
+(* what the mirror property says position by position *)
+Theorem mirror_pointwise g : mirror g ->
+  List.length (g_models g) = List.length (g_dfs g) /\ List.length (g_models g) = List.length (g_sigs g) /\
+  forall i m, nth_error (g_models g) i = Some m ->
+    exists t sg, nth_error (g_dfs g) i = Some t /\ o_df m = Some t /\
+                 nth_error (g_sigs g) i = Some sg /\ o_sig m = Some sg.
+Proof.
+  intros (Hdf & Hsig). split; [|split].
+  - apply (f_equal (@List.length _)) in Hdf. now rewrite !map_length in Hdf.
+  - apply (f_equal (@List.length _)) in Hsig. now rewrite !map_length in Hsig.
+  - intros i m Hi.
+    assert (H1 : nth_error (map o_df (g_models g)) i = Some (o_df m)) by now rewrite nth_error_map, Hi.
+    assert (H2 : nth_error (map o_sig (g_models g)) i = Some (o_sig m)) by now rewrite nth_error_map, Hi.
+    rewrite Hdf, nth_error_map in H1. rewrite Hsig, nth_error_map in H2.
+    destruct (nth_error (g_dfs g) i) as [t|]; [|discriminate H1].
+    destruct (nth_error (g_sigs g) i) as [sg|]; [|discriminate H2].
+    cbn [option_map] in H1, H2. injection H1 as H1. injection H2 as H2.
+    exists t, sg. repeat split; congruence.
+Qed.
+
+(* stored settings of the group = constructor settings with the edits applied, and every model holds them *)
+Definition models_current (g : group) : Prop := Forall (fun m => o_set m = g_set g) (g_models g).
+
+Lemma group_settings_step g p g' : models_current g -> gstep g p = Ok g' ->
+  g_set g' = gintended (g_set g) [p] /\ models_current g'.
+Proof.
+  unfold models_current. intros Hc Hp. destruct p as [arr sh|k v|k v|r]; cbn [gstep gstep_gen] in Hp.
+  - injection Hp as <-. cbn [g_set g_models gintended]. split; [reflexivity|].
+    apply Forall_forall. intros m Hin. apply in_map_iff in Hin as (q & <- & _). reflexivity.
+  - injection Hp as <-. cbn [g_set g_models gintended]. split; [reflexivity|].
+    apply Forall_forall. intros m Hin. apply in_map_iff in Hin as (q & <- & _). reflexivity.
+  - injection Hp as <-. cbn [g_set g_models gintended]. split; [reflexivity|].
+    apply Forall_forall. intros m Hin. apply in_map_iff in Hin as (q & <- & _). reflexivity.
+  - destruct (g_models g) as [|m0 ms0] eqn:Em; [discriminate Hp|]. rewrite <- Em in Hp, Hc.
+    destruct (mapM (fun m => step m (ORecompute r)) (g_models g)) as [ms|e] eqn:E; cbn [bind] in Hp; [|discriminate Hp].
+    injection Hp as <-. destruct (mapM_recompute r _ _ E) as (_ & Hset & _ & _).
+    cbn [g_set g_models gintended]. split; [reflexivity|].
+    apply Forall_forall. intros m Hin.
+    assert (Hin' : In (o_set m) (map o_set ms)) by (apply in_map; exact Hin).
+    rewrite Hset in Hin'. apply in_map_iff in Hin' as (m' & <- & Hm'). rewrite Forall_forall in Hc. now apply Hc.
+Qed.
+
+Lemma gintended_app s l1 l2 : gintended s (l1 ++ l2)%list = gintended (gintended s l1) l2.
+Proof.
+  revert s; induction l1 as [|p t IH]; intros s; [reflexivity|].
+  destruct p; cbn [app gintended]; apply IH.
+Qed.
+
+Theorem group_settings_run g ops g' : models_current g -> grun g ops = Ok g' ->
+  g_set g' = gintended (g_set g) ops /\ models_current g'.
+Proof.
+  revert g; induction ops as [|p t IH]; intros g Hc Hr; cbn [grun grun_gen] in Hr.
+  - injection Hr as <-. split; [reflexivity|exact Hc].
+  - destruct (gstep g p) as [g1|e] eqn:E; cbn [bind] in Hr; [|discriminate Hr].
+    destruct (group_settings_step _ _ _ Hc E) as (Hs1 & Hc1).
+    destruct (IH g1 Hc1 Hr) as (Hs & Hc'). split; [|exact Hc'].
+    rewrite Hs, Hs1. change (p :: t) with ([p] ++ t)%list. now rewrite gintended_app.
+Qed.
+
+Theorem group_settings a ops g : grun (construct_group a) ops = Ok g ->
+  g_set g = gintended (g_set (construct_group a)) ops /\ models_current g.
+Proof. apply group_settings_run. constructor. Qed.
+
+(* a group fit after ANY history: one model per position, each with the table of the CURRENT settings for
+   its position and its own signal; nothing of an earlier fit (other shape, other thresholds) survives *)
+Theorem group_fit_after_history a ops g arr sh g' :
+  grun (construct_group a) ops = Ok g -> gstep g (GFit arr sh) = Ok g' ->
+  let s := gintended (g_set (construct_group a)) ops in
+  g_set g' = s /\
+  g_sigs g' = map (cell_id arr) (seq 0 (npos sh)) /\
+  g_dfs g' = map (table_at s arr sh) (seq 0 (npos sh)) /\
+  g_models g' = map (fun p => load_model s (cell_id arr p) (table_at s arr sh p)) (seq 0 (npos sh)).
+Proof.
+  intros Hr Hf. apply group_settings in Hr as (Hs & _). cbn [gstep gstep_gen] in Hf. injection Hf as <-.
+  cbn [g_set g_sigs g_dfs g_models]. rewrite Hs. repeat split.
+Qed.
+
+(* group recompute_edges(r): every table becomes the functional edge recomputation of the table at
+   its position with the group's thresholds lowered by r — in df_features AND in the models *)
+Theorem group_recompute g r g' : mirror g -> models_current g -> gstep g (GRecompute r) = Ok g' ->
+  g_dfs g' = map (fun t => TEdges t (reduce_thresholds (st_thr (g_set g)) r)) (g_dfs g) /\
+  map o_df (g_models g') = map Some (g_dfs g') /\ g_sigs g' = g_sigs g /\ g_set g' = g_set g.
+Proof.
+  intros (Hdf & Hsig) Hc Hp. cbn [gstep gstep_gen] in Hp.
+  destruct (g_models g) as [|m0 ms0] eqn:Em; [discriminate Hp|]. rewrite <- Em in Hp, Hdf. clear Em.
+  destruct (mapM (fun m => step m (ORecompute r)) (g_models g)) as [ms|e] eqn:E; cbn [bind] in Hp; [|discriminate Hp].
+  injection Hp as <-. destruct (mapM_recompute r _ _ E) as (_ & _ & Hd & Hts).
+  cbn [g_dfs g_models g_sigs g_set]. split; [|split; [exact Hd|split; reflexivity]].
+  rewrite (Hts _ Hdf). unfold models_current in Hc. revert Hc Hdf. generalize (g_dfs g) as ts. generalize (g_models g) as l.
+  induction l as [|m l IH]; intros [|t ts] Hc Hdf; try discriminate Hdf; [reflexivity|].
+  cbn [combine map fst snd]. inversion Hc as [|? ? Hm Hl]; subst. cbn [map] in Hdf. injection Hdf as _ Hdf.
+  rewrite Hm. f_equal. exact (IH ts Hl Hdf).
+Qed.
+
+(* Legacy (before the repair): recompute_edges updated the models only; two operations suffice to
+   leave the group's df_features stale *)
+Definition legacy_group_history : list gop := [GFit 1 (G2Rows 2); GRecompute 100].
+Theorem group_legacy_refuted :
+  exists g g', grun_legacy (construct_group no_args) legacy_group_history = Ok g /\ ~ mirror g /\
+               grun (construct_group no_args) legacy_group_history = Ok g' /\ mirror g'.
+Proof.
+  eexists. eexists. split; [vm_compute; reflexivity|]. split; [|split; [vm_compute; reflexivity|]].
+  - intros (Hdf & _). vm_compute in Hdf. discriminate Hdf.
+  - split; vm_compute; reflexivity.
+Qed.
+
 (* ---------------------------------------------------------------- purity (C15) *)
 Section PurityProofs.
 Context {Env Arg Res : Type}.
